@@ -40,7 +40,7 @@ MUTANTS = [
      "        for base in self.mro():\n            obj: Optional[Documentable] = base.contents.get(name)",
      "        for base in self.allbases(include_self=True):\n            obj: Optional[Documentable] = base.contents.get(name)"),
     ('c06-no-second-pass-resolution', ['C06', 'C05', 'C04'], 'pydoctor/model.py',
-     "                    resolved_base = o.parent.resolveName(str_base)\n                    if isinstance(resolved_base, Class):",
+     "                    if not isinstance(resolved_base, Class):\n                        resolved_base = o.parent.resolveName(str_base)\n                    if isinstance(resolved_base, Class):",
      "                    resolved_base = None\n                    if isinstance(resolved_base, Class):"),
     ('c06-importnames-no-ondemand-processing', ['C06', 'C07', 'C04'], 'pydoctor/astbuilder.py',
      "        # Process the module we're importing from.\n        mod = self.system.getProcessedModule(modname)",
